@@ -175,7 +175,7 @@ def gen_ops(rng, cfg, nops, invalid_rate=0.0, blocks=True, close=True, style=Non
         return file_start(cfg, F + cfg.fc) - K
 
     if style is None:
-        style = rng.choice(["edges", "edges", "dense"])
+        style = rng.choice(["edges", "edges", "dense", "gapstream"])
     # one jump of more than 2**32 samples per history at most (cursor arithmetic beyond 32 bits).  Only on
     # request: DigitalRFReader enumerates every candidate file name of a requested range, so checks that
     # read the whole channel back cannot afford such a jump; the writer-side checks (C05, C19) can
@@ -188,16 +188,26 @@ def gen_ops(rng, cfg, nops, invalid_rate=0.0, blocks=True, close=True, style=Non
         return gap
     if style == "dense":
         nops = nops + rng.randrange(2, 6)
-    for _ in range(nops):
-        if style == "dense":
+    # "gapstream": a few small writes / block calls with gaps INSIDE the open file, then the recorder streams on
+    # without naming an index (next_sample=None: the writer's own cursor decides where the samples go), up to and
+    # across the file edge
+    stream_from = rng.choice([2, 3]) if style == "gapstream" else None
+    if style == "gapstream":
+        nops = max(nops, stream_from + 2)
+    for opi in range(nops):
+        streaming = stream_from is not None and opi >= stream_from
+        if streaming:
+            gapc = [0]
+            lens = [max(1, to_edge(cur)), max(1, to_edge(cur) - 1), to_edge(cur) + 1, 1, pf]
+        elif style in ("dense", "gapstream"):
             # many small writes and multi-block calls inside one file
             gapc = [0, 0, 0, 1, 1, 2, 3]
             lens = [1, 1, 2, 2, 3, 4]
         else:
             gapc = [0, 0, 0, 1, 2, to_edge(cur) - 1, to_edge(cur), to_edge(cur) + 1, pf, 3 * pf + 1]
             lens = [1, 1, 2, pf - 1, pf, pf + 1, 2 * pf + 1, to_edge(cur), max(1, to_edge(cur) - 1), to_edge(cur) + 1]
-        bad = rng.random() < invalid_rate
-        if blocks and rng.random() < 0.4:
+        bad = rng.random() < invalid_rate and not streaming
+        if blocks and not streaming and rng.random() < (0.6 if style == "gapstream" else 0.4):
             nb = rng.choice([1, 2, 2, 3, 4])
             g = cur + far(max(0, rng.choice(gapc)))
             G, D = [], []
@@ -208,7 +218,7 @@ def gen_ops(rng, cfg, nops, invalid_rate=0.0, blocks=True, close=True, style=Non
                 D.append(off)
                 off += ln
                 e = to_edge(g + ln)
-                if style == "dense":
+                if style in ("dense", "gapstream"):
                     g = g + ln + rng.choice([0, 1, 1, 2, 3])
                 else:
                     g = g + ln + max(0, rng.choice([0, 1, 1, 2, e - 1, e, e + 1, pf]))
@@ -267,7 +277,7 @@ def gen_ops(rng, cfg, nops, invalid_rate=0.0, blocks=True, close=True, style=Non
                 ns = max(0, ns)
             elif bad and rng.random() < 0.5:
                 ns = -rng.choice([1, 5])
-            use_none = (gap == 0 and not bad and rng.random() < 0.5)
+            use_none = (gap == 0 and not bad and (streaming or rng.random() < 0.5))
             ops.append(("w", None if use_none else ns, ln, tag))
             if ns >= cur and ln > 0:
                 cur = ns + ln
